@@ -179,6 +179,8 @@ bool ompl::base::AtlasChart::psi(CRef u, MRef out) const
 {
     using Fn = bool (*)(const AtlasChart *, CRef, MRef);
     static Fn real = nextSym<Fn>("_ZNK4ompl4base10AtlasChart3psiERKN5Eigen3RefIKNS2_6MatrixIdLin1ELi1ELi0ELin1ELi1EEELi0ENS2_11InnerStrideILi1EEEEENS3_IS5_Li0ES8_EE");
+    if (!g_rec && !g_clogOn)  // nothing is being recorded (planner runs): straight through to the library
+        return real(this, u, out);
     Nest nst;
     Eigen::VectorXd uin = u;
     bool r = real(this, u, out);
@@ -196,6 +198,11 @@ void ompl::base::AtlasChart::phi(CRef u, MRef out) const
 {
     using Fn = void (*)(const AtlasChart *, CRef, MRef);
     static Fn real = nextSym<Fn>("_ZNK4ompl4base10AtlasChart3phiERKN5Eigen3RefIKNS2_6MatrixIdLin1ELi1ELi0ELin1ELi1EEELi0ENS2_11InnerStrideILi1EEEEENS3_IS5_Li0ES8_EE");
+    if (!g_rec && !g_clogOn)  // nothing is being recorded (planner runs): straight through to the library
+    {
+        real(this, u, out);
+        return;
+    }
     Nest nst;
     Eigen::VectorXd uin = u;
     real(this, u, out);
@@ -211,6 +218,11 @@ void ompl::base::AtlasChart::psiInverse(CRef x, MRef out) const
 {
     using Fn = void (*)(const AtlasChart *, CRef, MRef);
     static Fn real = nextSym<Fn>("_ZNK4ompl4base10AtlasChart10psiInverseERKN5Eigen3RefIKNS2_6MatrixIdLin1ELi1ELi0ELin1ELi1EEELi0ENS2_11InnerStrideILi1EEEEENS3_IS5_Li0ES8_EE");
+    if (!g_rec && !g_clogOn)  // nothing is being recorded (planner runs): straight through to the library
+    {
+        real(this, x, out);
+        return;
+    }
     Nest nst;
     Eigen::VectorXd xin = x;
     real(this, x, out);
@@ -226,6 +238,8 @@ bool ompl::base::AtlasChart::inPolytope(CRef u, const Halfspace *i1, const Halfs
 {
     using Fn = bool (*)(const AtlasChart *, CRef, const Halfspace *, const Halfspace *);
     static Fn real = nextSym<Fn>("_ZNK4ompl4base10AtlasChart10inPolytopeERKN5Eigen3RefIKNS2_6MatrixIdLin1ELi1ELi0ELin1ELi1EEELi0ENS2_11InnerStrideILi1EEEEEPKNS1_9HalfspaceESE_");
+    if (!g_rec && !g_clogOn)  // nothing is being recorded (planner runs): straight through to the library
+        return real(this, u, i1, i2);
     Nest nst;
     bool r = real(this, u, i1, i2);
     if (g_clogOn && i1 == nullptr && i2 == nullptr)
@@ -249,6 +263,11 @@ void ompl::base::AtlasChart::borderCheck(CRef v) const
 {
     using Fn = void (*)(const AtlasChart *, CRef);
     static Fn real = nextSym<Fn>("_ZNK4ompl4base10AtlasChart11borderCheckERKN5Eigen3RefIKNS2_6MatrixIdLin1ELi1ELi0ELin1ELi1EEELi0ENS2_11InnerStrideILi1EEEEE");
+    if (!g_rec && !g_clogOn)  // nothing is being recorded (planner runs): straight through to the library
+    {
+        real(this, v);
+        return;
+    }
     Nest nst;
     std::vector<Eigen::VectorXd> vps;
     if (g_clogOn)
@@ -290,6 +309,11 @@ void ompl::base::AtlasChart::generateHalfspace(AtlasChart *c1, AtlasChart *c2)
 {
     using Fn = void (*)(AtlasChart *, AtlasChart *);
     static Fn real = nextSym<Fn>("_ZN4ompl4base10AtlasChart17generateHalfspaceEPS1_S2_");
+    if (!g_rec && !g_clogOn)  // nothing is being recorded (planner runs): straight through to the library
+    {
+        real(c1, c2);
+        return;
+    }
     Nest nst;
     real(c1, c2);
     if (g_clogOn)
@@ -321,6 +345,8 @@ ompl::base::AtlasChart *ompl::base::AtlasStateSpace::getChart(const StateType *s
 {
     using Fn = AtlasChart *(*)(const AtlasStateSpace *, const StateType *, bool, bool *);
     static Fn real = nextSym<Fn>("_ZNK4ompl4base15AtlasStateSpace8getChartEPKNS1_9StateTypeEbPb");
+    if (!g_rec && !g_clogOn)  // nothing is being recorded (planner runs): straight through to the library
+        return real(this, state, force, created);
     Nest nst;
     bool before = created ? *created : false;
     AtlasChart *c = real(this, state, force, created);
@@ -338,6 +364,8 @@ ompl::base::AtlasChart *ompl::base::AtlasStateSpace::owningChart(const StateType
 {
     using Fn = AtlasChart *(*)(const AtlasStateSpace *, const StateType *);
     static Fn real = nextSym<Fn>("_ZNK4ompl4base15AtlasStateSpace11owningChartEPKNS1_9StateTypeE");
+    if (!g_rec && !g_clogOn)  // nothing is being recorded (planner runs): straight through to the library
+        return real(this, state);
     Nest nst;
     AtlasChart *c = real(this, state);
     if (nst.top)
@@ -352,6 +380,8 @@ ompl::base::AtlasChart *ompl::base::AtlasStateSpace::sampleChart() const
 {
     using Fn = AtlasChart *(*)(const AtlasStateSpace *);
     static Fn real = nextSym<Fn>("_ZNK4ompl4base15AtlasStateSpace11sampleChartEv");
+    if (!g_rec && !g_clogOn)  // nothing is being recorded (planner runs): straight through to the library
+        return real(this);
     Nest nst;
     AtlasChart *c = real(this);
     if (nst.top)
